@@ -1222,7 +1222,7 @@ func c12Tasks(tier string) []mc.Task {
 		}
 	}
 	ts = append(ts, c12CLITasks(thorough)...)
-	return append(ts, c12LargeTasks()...)
+	return append(append(ts, c12LargeTasks()...), c12TallTasks()...)
 }
 
 func init() {
@@ -1251,6 +1251,11 @@ func init() {
 		Tasks: func(tier string) []mc.Task { return append(c12Tasks(tier), cliStreamTasks("C12")...) },
 		Replay: func(c *mc.Ctx, payload json.RawMessage) {
 			if cliStreamReplay(c, payload) {
+				return
+			}
+			var tc c12TallCase
+			if json.Unmarshal(payload, &tc) == nil && tc.Tall {
+				c12TallCheck(c, tc)
 				return
 			}
 			var lc c12LargeCase
